@@ -195,3 +195,218 @@ void harness(void)
     CANARY("invalidate end reachable");
 }
 ''')
+
+# ---------------------------------------------------------------------------------------------- element access / observers
+unit('access',
+     ['igris::vector::operator[]', 'igris::vector::operator[] const', 'igris::vector::at', 'igris::vector::front', 'igris::vector::back',
+      'igris::vector::front const', 'igris::vector::back const', 'igris::vector::data', 'igris::vector::size', 'igris::vector::capacity',
+      'igris::vector::empty', 'igris::vector::begin', 'igris::vector::end', 'igris::vector::begin const', 'igris::vector::end const'],
+     [],
+     'observers on an arbitrary VEC state: operator[](n) (n < size(), its assert holds) and at(n) return a reference to the live element n; at(n) with '
+     'n >= size() throws (ghost flag) and touches nothing; front()/back() on a non-empty vector are elements 0 and size()-1; data()/begin() == m_data, '
+     'end() == begin() + size(), size()/capacity()/empty() report the fields; nothing is modified',
+     '''
+void harness(void)
+{''' + PRE + '''
+    WIT(size_t, n); WIT(int, op);
+    ELEM *d0 = v.m_data;
+    const ELEM *r;
+    if (op == 0) {
+        __CPROVER_assume(n < size);                   /* ISO precondition of operator[] */
+        r = vector_index(&v, n);
+        __CPROVER_assert(r == d0 + n, "value: operator[](n) refers to element n");
+        __CPROVER_assert(vector_index_c(&v, n) == r, "value: operator[] const refers to the same element");
+        if (n == k) __CPROVER_assert(ELEM_ST(r) == ELEM_LIVE, "lifetime: operator[] yields a live element");
+    } else if (op == 1) {
+        r = vector_at(&v, n);
+        if (n < size) {
+            __CPROVER_assert(!g_thrown && r == d0 + n, "value: at(n), n < size(): refers to element n, nothing thrown");
+            if (n == k) __CPROVER_assert(ELEM_ST(r) == ELEM_LIVE, "lifetime: at() yields a live element");
+        } else
+            __CPROVER_assert(g_thrown == 1, "value: at(n), n >= size(): throws std::out_of_range");
+    } else if (op == 2) {
+        __CPROVER_assume(size > 0);                   /* ISO precondition of front() / back() */
+        __CPROVER_assert(vector_front(&v) == d0 && vector_front_c(&v) == d0, "value: front() is element 0");
+        __CPROVER_assert(vector_back(&v) == d0 + (size - 1) && vector_back_c(&v) == d0 + (size - 1), "value: back() is element size()-1");
+    } else {
+        __CPROVER_assert(vector_data(&v) == d0 && vector_begin(&v) == d0 && vector_begin_c(&v) == d0, "value: data() == begin() == the block");
+        if (d0) __CPROVER_assert(vector_end(&v) == d0 + size && vector_end_c(&v) == d0 + size, "value: end() == begin() + size()");
+        __CPROVER_assert(vector_size(&v) == size && vector_capacity(&v) == cap && vector_empty(&v) == (size == 0), "value: size() / capacity() / empty()");
+    }
+    c02_vec_check(&v);
+    __CPROVER_assert(v.m_data == d0 && v.m_size == size && v.m_capacity == cap, "frame: observers do not modify the vector");
+    CANARY("access end reachable");
+}
+''', assumptions=['operator[]: n < size(); front()/back(): the vector is not empty (ISO preconditions)'])
+
+unit('at_const',
+     ['igris::vector::at const'],
+     [],
+     'at(n) const: n < size(): reference to element n; n >= size(): throws std::out_of_range like std::vector (does not abort)',
+     '''
+void harness(void)
+{''' + PRE + '''
+    WIT(size_t, n);
+    /* known finding: at() const asserts n < size() before it can throw */
+    C02_KF(KF_C02_at_const_assert, n >= size);
+    ELEM *d0 = v.m_data;
+    const ELEM *r = vector_at_c(&v, n);
+    if (n < size) __CPROVER_assert(!g_thrown && r == d0 + n, "value: at(n) const, n < size(): refers to element n, nothing thrown");
+    else __CPROVER_assert(g_thrown == 1, "value: at(n) const, n >= size(): throws std::out_of_range");
+    CANARY("at const end reachable");
+}
+''', kf=['C02_at_const_assert'])
+
+unit('reverse_iter',
+     ['igris::vector::rbegin', 'igris::vector::rend'],
+     [],
+     'rbegin()/rend() (declared as reverse_iterator = T*): as for std::vector, stepping from rbegin() with ++ reaches rend() after exactly size() steps '
+     'and visits the elements last to first; both stay inside [data()-0, data()+size()] (no pointer before the block)',
+     '''
+void harness(void)
+{''' + PRE + '''
+    __CPROVER_assume(!isnull);
+    const ELEM *rb = vector_rbegin(&v);
+    const ELEM *re = vector_rend(&v);
+    if (size > 0) __CPROVER_assert(rb == v.m_data + (size - 1), "value: rbegin() refers to the last element");
+    /* known finding (fails for every vector, so the clauses are dropped in the carved-out run instead of an input region):
+       rbegin()/rend() are plain pointers, rend() is m_data - 1 */
+    if (KF_C02_reverse_iter != 1) {
+        __CPROVER_assert(__CPROVER_same_object(re, v.m_data) && __CPROVER_POINTER_OFFSET(re) >= 0, "bounds: rend() does not point before the block");
+        __CPROVER_assert(size == 0 || __CPROVER_POINTER_OFFSET(rb) >= 0, "bounds: rbegin() does not point before the block");
+        __CPROVER_assert(rb + size == re, "value: ++ from rbegin() reaches rend() after size() steps");
+    }
+    CANARY("reverse_iter end reachable");
+}
+''', kf=['C02_reverse_iter'])
+
+# ---------------------------------------------------------------------------------------------- erase(iterator)
+unit('erase_it',
+     ['igris::vector::erase(iterator)'],
+     [],
+     'erase(pos), pos dereferenceable (std::vector::erase(const_iterator)): removes exactly the element at pos - size()-1, elements before pos keep their '
+     'place, elements after pos move down by one; the removed element is destroyed exactly once (nothing alive at or above the new size()); block and capacity kept',
+     '''
+void harness(void)
+{''' + PRE + '''
+    WIT(size_t, pos);
+    __CPROVER_assume(pos < size);               /* ISO: pos is a valid dereferenceable iterator */
+    ELEM *d0 = v.m_data;
+    int old_k = k < size ? ELEM_V(&v.m_data[k]) : 0;
+    int old_k1 = k + 1 < size ? ELEM_V(&v.m_data[k + 1]) : 0;
+
+    vector_erase_to_end(&v, v.m_data + pos);
+
+    /* known finding (fails for every pos: the dropped elements are never destroyed; for pos < size()-1 also the wrong elements are dropped):
+       the carved-out run checks the bounds group and, for pos == size()-1, the value group */
+    c02_vec_check_ex(&v, KF_C02_erase_it_truncates != 1);
+    c02_no_leak(&v, NULL);
+    __CPROVER_assert(v.m_data == d0 && v.m_capacity == cap, "value: erase(pos): block and capacity unchanged");
+    if (KF_C02_erase_it_truncates != 1 || pos == size - 1) {
+        __CPROVER_assert(v.m_size == size - 1, "value: erase(pos): size() shrinks by one");
+        if (k < pos) __CPROVER_assert(ELEM_V(&v.m_data[k]) == old_k, "value: erase(pos): elements before pos keep their value and position");
+        if (k >= pos && k + 1 < size) __CPROVER_assert(ELEM_V(&v.m_data[k]) == old_k1, "value: erase(pos): elements after pos move down by one");
+    }
+    CANARY("erase(pos) end reachable");
+}
+''', kf=['C02_erase_it_truncates'])
+
+# ---------------------------------------------------------------------------------------------- erase(first, last)
+unit('erase_range',
+     ['igris::vector::erase(iterator, iterator)', 'std::move(first, last, d) stub'],
+     ['ER'],
+     'erase(first, last), begin() <= first <= last <= end(): removes [first, last) - size() shrinks by last-first, elements before first keep their place, '
+     'elements from last on move down by last-first; exactly the removed elements\' objects are destroyed: nothing is assigned to or moved from a destroyed '
+     'slot, nothing alive at or above the new size(); block and capacity kept',
+     '''
+void harness(void)
+{''' + PRE + '''
+    WIT(size_t, fi); WIT(size_t, li);
+    __CPROVER_assume(fi <= li && li <= size);
+    __CPROVER_assume(!isnull);                   /* (NULL, 0, 0): erase(NULL, NULL) is not a call std::vector defines either */
+    __CPROVER_assume(j == k + (li - fi));        /* second tracked slot = the source of slot k (value bookkeeping only) */
+    /* known finding: destroys [first, last) first and then move-assigns into those slots; the moved-from tail stays alive above size() */
+    C02_KF(KF_C02_erase_range_lifetime, fi < li && li < size);
+    ELEM *d0 = v.m_data;
+    int old_k = k < size ? ELEM_V(&v.m_data[k]) : 0;
+    int old_j = j < size ? ELEM_V(&v.m_data[j]) : 0;
+
+    vector_erase_range(&v, v.m_data + fi, v.m_data + li);
+
+    c02_vec_check(&v);
+    c02_no_leak(&v, NULL);
+    __CPROVER_assert(v.m_data == d0 && v.m_capacity == cap, "value: erase(first, last): block and capacity unchanged");
+    __CPROVER_assert(v.m_size == size - (li - fi), "value: erase(first, last): size() shrinks by last - first");
+    if (k < fi) __CPROVER_assert(ELEM_V(&v.m_data[k]) == old_k, "value: erase(first, last): elements before first keep their value and position");
+    if (k >= fi && k < size - (li - fi)) __CPROVER_assert(ELEM_V(&v.m_data[k]) == old_j, "value: erase(first, last): elements from last on move down by last - first");
+    CANARY("erase(first, last) end reachable");
+}
+''', kf=['C02_erase_range_lifetime'])
+
+# ---------------------------------------------------------------------------------------------- insert(pos, value)
+INSERT_PRE = '''
+    WIT(size_t, pos); WIT(int, x);
+    __CPROVER_assume(pos <= size && size < C02_MAXN && 0 <= x && x <= C02_VMAX);
+    __CPROVER_assume(!isnull || KF_C02_insert_null != 1);
+    __CPROVER_assume(k == 0 ? j == 0 : j == k - 1);     /* second tracked slot = the source of slot k (value bookkeeping only) */
+    ELEM *d0 = v.m_data;
+    int old_k = k < size ? ELEM_V(&v.m_data[k]) : 0;
+    int old_j = j < size ? ELEM_V(&v.m_data[j]) : 0;
+'''
+INSERT_POST = '''
+    c02_vec_check(&v);
+    c02_no_leak(&v, NULL);
+    __CPROVER_assert(v.m_size == size + 1, "value: %(f)s: size() grows by one");
+    __CPROVER_assert(r == v.m_data + pos, "value: %(f)s: returns an iterator to the inserted element");
+    if (k < pos) __CPROVER_assert(ELEM_V(&v.m_data[k]) == old_k, "value: %(f)s: elements before pos keep their value and position");
+    if (k == pos) __CPROVER_assert(ELEM_V(&v.m_data[k]) == x, "value: %(f)s: the element at pos is the new one");
+    if (k > pos && k <= size) __CPROVER_assert(ELEM_V(&v.m_data[k]) == old_j, "value: %(f)s: elements from pos on move up by one");
+    if (size < cap) __CPROVER_assert(v.m_data == d0 && v.m_capacity == cap, "value: %(f)s: no reallocation while size() < capacity()");
+'''
+unit('insert_value',
+     ['igris::vector::insert(const_iterator, const T&)', 'igris::vector::insert(int, const T&)', 'std::move_backward stub', 'std::prev stub'],
+     ['AD', 'CB', 'W_INSERT'],
+     'insert(pos, x), begin() <= pos <= end(), from an arbitrary VEC state (with or without reallocation; x outside the vector or one of its elements): '
+     'size()+1, elements before pos unchanged, element pos == x, elements from pos on moved up by one, iterator to the new element returned; lifetime - '
+     'only live elements are assigned to / moved from, the new last slot is constructed, nothing alive above size()',
+     '''
+void harness(void)
+{''' + PRE + INSERT_PRE + '''
+    WIT(int, alias); WIT(size_t, a); WIT(int, by_index);
+    ELEM *val;
+    if (alias) {
+        __CPROVER_assume(a < size);
+        val = &v.m_data[a];
+        if (a != k && a != j) __CPROVER_assume(ELEM_ST(val) == ELEM_LIVE);   /* VEC at slot a */
+        x = ELEM_V(val);
+    } else {
+        val = (ELEM *)NEW_OBJ(sizeof(ELEM)); ELEM_SET(val, ELEM_LIVE, x); g_solo = val;
+    }
+    /* known finding: x is an element of the vector: read after it has been shifted / after the block has been released */
+    C02_KF(KF_C02_insert_self_alias, alias);
+    if (by_index) __CPROVER_assume(pos <= 0x7fffffff);
+
+    ELEM *r = by_index ? vector_insert_at(&v, (int)pos, val) : vector_insert(&v, v.m_data + pos, val);
+''' + INSERT_POST % {'f': 'insert(pos, x)'} + '''
+    if (!alias) __CPROVER_assert(C02_IS(val, ELEM_LIVE, x), "frame: insert(pos, x): the argument is not modified");
+    CANARY("insert(pos, x) end reachable");
+}
+''', kf=['C02_insert_raw_slot', 'C02_insert_self_alias', 'C02_insert_null'])
+
+# ---------------------------------------------------------------------------------------------- emplace(pos, arg)
+unit('emplace',
+     ['igris::vector::emplace(const_iterator, 1 arg)', 'std::move_backward stub', 'std::prev stub'],
+     ['AD', 'CB', 'W_EMPLACE'],
+     'emplace(pos, a) (one constructor argument), begin() <= pos <= end(), from an arbitrary VEC state: as insert(pos, T(a)); lifetime - T(a) is '
+     'constructed over RAW storage or assigned to a live element, never placement-new\'ed over an element that has not been destroyed',
+     '''
+void harness(void)
+{''' + PRE + INSERT_PRE + '''
+    /* known finding: for pos < end() the new element is placement-new'ed over the moved-from (not destroyed) element at pos */
+    C02_KF(KF_C02_emplace_over_live, pos < size);
+
+    ELEM *r = vector_emplace(&v, v.m_data + pos, x);
+''' + INSERT_POST % {'f': 'emplace(pos, a)'} + '''
+    CANARY("emplace(pos, a) end reachable");
+}
+''', kf=['C02_insert_raw_slot', 'C02_emplace_over_live', 'C02_insert_null'])
